@@ -223,7 +223,7 @@ func runCase(c Case, ctx *hx.Ctx) *hx.Failure {
 				}
 				if e.n > capMax {
 					sig := "C11/capacity-exceeded"
-					if c.Size < 64 {
+					if c.Size < 64 && e.n > capMax+256 {
 						sig = "C11/capacity-unbounded-small-size"
 					}
 					return hx.Failf(sig, "configured size %d (capacity %d with the documented minimum of 1024): %s reports %d entries", c.Size, capMax, e.op.Kind, e.n)
